@@ -198,7 +198,7 @@ func (u *c07U) classOf(ds []attrDiff) string {
 // statement. It is counted as a probe, never reported, and ends the run.
 func (u *c07U) fail(sig, class, format string, args ...interface{}) {
 	if class != "" {
-		u.c.Probe("outside_quantifier/" + strings.TrimPrefix(sig, "C07/"))
+		u.c.Probe("outside_quantifier/" + strings.TrimPrefix(strings.TrimPrefix(sig, "C07/"), "C17/"))
 		if u.run != nil && u.run.dead == "" {
 			u.run.dead = "difference after an API-level call that no transaction path makes"
 		}
@@ -959,6 +959,23 @@ func (u *c07U) unitRedo(run *amRun, ops []*jop, results []string) {
 	want := dumpState(account.NewManager(blkA.Hash(), u.w.db), u.addrs, u.keysFor)
 	got := dumpState(account.NewManager(blkB.Hash(), u.w.db), u.addrs, u.keysFor)
 	c.State(hashDump(want))
+	if c.Prop == "C17" {
+		// C17: "a committed trie reopened from the database by root has the same content": what a fresh manager
+		// reads from the saved block (the four per-account tries reopened by the roots in the account record)
+		// against what the executing manager held in memory when it saved
+		g, _ := splitGating(diffAccounts(memWant, want))
+		var pers []attrDiff
+		for _, d := range g {
+			if d.Attr != "suicide" { // the self-destruct flag lives in memory for the rest of the block only
+				pers = append(pers, d)
+			}
+		}
+		if g = pers; len(g) > 0 {
+			u.fail("C17/account/reopened-differs/"+sigAttr(g), u.classOf(g), "the state a fresh manager reads from the saved block differs from the state the saving manager held (account tries reopened by root):%s\nvariant=%s journal:%s\nops:%s",
+				diffStrings(g, 12), c.Var, logsString(logs), opsString(ops, len(ops), results))
+		}
+		return
+	}
 	gating, _ := splitGating(diffAccounts(want, got))
 	if len(gating) > 0 {
 		u.fail("C07/redo/"+sigAttr(gating), u.classOf(gating), "saved state rebuilt from the published journal differs from the saved executed state:%s\nvariant=%s journal:%s\nops:%s",
